@@ -201,7 +201,8 @@ cleanup_pthread:
 void
 qb_log_thread_pause(struct qb_log_target *t)
 {
-	if (t->threaded) {
+	/* no lock, no logging thread to keep out (not started yet) */
+	if (t->threaded && logt_wthread_lock != NULL) {
 		(void)qb_thread_lock(logt_wthread_lock);
 	}
 }
@@ -209,7 +210,7 @@ qb_log_thread_pause(struct qb_log_target *t)
 void
 qb_log_thread_resume(struct qb_log_target *t)
 {
-	if (t->threaded) {
+	if (t->threaded && logt_wthread_lock != NULL) {
 		(void)qb_thread_unlock(logt_wthread_lock);
 	}
 }
